@@ -8,8 +8,9 @@ order of hide-then-create in wraps_task.
 from __future__ import annotations
 
 import ast
+import re
 
-from ..cfg import CFG
+from ..cfg import CFG, facts_at
 from ..core import AnalysisError, FuncNode, assigned_targets, call_name, calls_in, kwarg, last_attr, names_in, src
 
 EXPLANATION = (
@@ -154,6 +155,15 @@ def run(ctx):
     # removal happens under the old name before mutation
     pops = [n for n in cfg.nodes if n.kind == "stmt" and any(call_name(c) == "self._tasks.pop" for c in ast.walk(n.ast) if isinstance(c, ast.Call))]
     ok = bool(pops) and all(cfg.dominates(pops[0], mu) for mu in muts)
+    if pops and not ok:
+        # conditional removal: skipped only when the registry's holder of the old name is not the object being renamed (then there is nothing to remove)
+        obj = {src(t.value) for mu in muts for t in mu.ast.targets if isinstance(t, ast.Attribute)}
+        gif = m.parent.get(pops[0].ast)
+        if isinstance(gif, ast.If) and len(obj) == 1:
+            o = next(iter(obj))
+            disj = gif.test.values if isinstance(gif.test, ast.BoolOp) and isinstance(gif.test.op, ast.Or) else [gif.test]
+            texts = [src(d) for d in disj]
+            ok = any(re.fullmatch(rf"self\._tasks\.get\(\w+\) is {re.escape(o)}", t) for t in texts) and all(t == f"{o} is None" or re.fullmatch(rf"self\._tasks\.get\(\w+\) is {re.escape(o)}", t) for t in texts) and not gif.orelse
     r3.check(ok, f"{m.rel}:TaskRegistry.rename:pop-before-mutate", "the task is not removed under its old name before being renamed", m.rel, rn.lineno)
 
     r4 = ctx.rule("C37.4", "wraps_task: save visible name, hide inner task, then create the visible task with the saved name", floor=3)
@@ -178,5 +188,46 @@ def run(ctx):
     ok = "create" in pos and pos["create"][1] == "visible_name|visible_namespace|hidden_inner_task.fullname"
     r4.check(ok, f"{m.rel}:wraps_task:visible-task", "the visible task is not created with the saved name/namespace and a reference to the hidden task's new fullname", m.rel, ct.lineno)
     rr = m.funcs.get("wraps_task.transform_wrapper.create_tasks.recursive_rename")
-    ok = rr is not None and 'f"{task_.namespace}.{suffix}"' in src(rr).replace("'", '"') and "new_namespace = suffix" in src(rr) and "get_task_registry().rename(" in src(rr)
+    renames = [c for c in calls_in(rr) if last_attr(c) == "rename"] if rr is not None else []
+    ok = rr is not None and 'f"{task_.namespace}.{suffix}"' in src(rr).replace("'", '"') and "new_namespace = suffix" in src(rr) and bool(renames) and all(kwarg(c, "new_namespace") is not None and src(kwarg(c, "new_namespace")) == "new_namespace" for c in renames)
     r4.check(bool(ok), f"{m.rel}:wraps_task:inner-namespace", "the hidden task does not move to '<namespace>.<wrapper>' (or '<wrapper>' when it had none) through TaskRegistry.rename", m.rel, getattr(rr, "lineno", 0))
+
+    # ---- C37.5 the by-name rename moves the task being wrapped -------------------------------
+    # TaskRegistry.rename(old_name, ...) pops and mutates whatever object is registered under old_name.  recursive_rename is handed a Task *object*;
+    # when that object no longer owns its name (displaced by a same-name redefinition) the by-name rename would move the unrelated replacement.
+    r5 = ctx.rule("C37.5", "wraps_task renames by name only after checking that the registry holds the very task being wrapped", floor=1)
+    if rr is None or not renames:
+        raise AnalysisError("recursive_rename / its rename call not found", "wraps_task")
+    rcfg = CFG(rr)
+    tparam = rr.args.args[0].arg
+    for c in renames:
+        facts = facts_at(rcfg, rcfg.node_of(c))
+        ident = [f for f, t in facts if t and re.search(rf"\.get\(.*\) is {tparam}$", f)]
+        # or: the task object is handed to TaskRegistry.rename, which removes the holder of the name only when it is that object
+        passed = kwarg(c, "task")
+        if not ident and passed is not None and src(passed) == tparam:
+            rn = m.func("TaskRegistry.rename")
+            ncfg = CFG(rn)
+            rparams = [a.arg for a in rn.args.args]
+            pops = [x for x in calls_in(rn) if src(x.func) == "self._tasks.pop"]
+            if "task" in rparams and pops and all(any(t and re.search(r"self\._tasks\.get\(.*\) is task$", f) for f, t in _or_facts(ncfg, ncfg.node_of(x))) for x in pops):
+                ident = ["TaskRegistry.rename(task=...) guards its pop with `self._tasks.get(old_name) is task`"]
+        r5.check(
+            bool(ident),
+            f"{m.rel}:wraps_task:rename-identity",
+            f"recursive_rename calls `{src(c)[:70]}` for `{tparam}` without testing `<registry>.get(task_name=...) is {tparam}`: wrapping a Task object that a same-name redefinition has displaced "
+            "moves the replacement into the wrapper's inner namespace (the original never moves), and the new wrapper's wrapped_task option names the wrapper itself",
+            m.rel,
+            c.lineno,
+        )
+
+
+def _or_facts(cfg, node):
+    """facts_at plus the second disjunct of a dominating `X is None or B` test taken on its true edge (with X given, B is what holds)."""
+    out = set(facts_at(cfg, node))
+    for d in cfg.dominators().get(node, ()):
+        if d.kind == "edge" and d.label == "T" and isinstance(d.test.ast, ast.BoolOp) and isinstance(d.test.ast.op, ast.Or):
+            vals = d.test.ast.values
+            if len(vals) == 2 and src(vals[0]).endswith("is None"):
+                out.add((src(vals[1]), True))
+    return out
